@@ -143,7 +143,9 @@ def run(ctx):
     ctx.floor('C15.R1 mutable uses of Table.rows inside impl Table', n_r1, 7)
 
     CAT_GET = {'vibesql_catalog::store::tables::<impl vibesql_catalog::store::Catalog>::get_table'}
-    dead = lambda f: none_edges(f, CAT_GET) if f.unit == 'vibesql_storage' else frozenset()
+    from ..engine.paths import zero_count_edges
+    dead = lambda f: (none_edges(f, CAT_GET) if f.unit == 'vibesql_storage' else frozenset()) | zero_count_edges(f, {M.T + 'delete_where'})
+    ctx.assumptions.append('Table::delete_where returns the number of rows it removed: on the `== 0` edge nothing changed')
     ctx.assumptions.append('inside vibesql-storage, Catalog::get_table(name) is Some for a table that exists in storage '
                            '(catalog/storage coherence is C33\'s clause)')
     scope = [f for f in prog.fns.values()
